@@ -494,8 +494,8 @@ func (e *Env) call(x SCall) SVal {
 		}
 		n := *e
 		n.cur = e.old
-		n.local = nil
-		// in old(), locals refer to entry values: parameters are in vars
+		// old() changes the heap that is read; local variables keep their
+		// current values (parameters are bound to their entry values anyway)
 		return n.elab(x.Args[0])
 	case "len":
 		argn(1)
@@ -646,6 +646,15 @@ func (e *Env) call(x SCall) SVal {
 			return SVal{T: t, Typ: tInt}
 		}
 		return SVal{T: Var("ghost."+id.Name+"@0", SInt), Typ: tInt}
+	case "visited":
+		argn(1)
+		v, ok := e.vars["$vis"]
+		if !ok {
+			efail("visited(k) is only available in the invariants of a loop ranging over a map")
+		}
+		k := e.elab(x.Args[0])
+		ks, _, _ := v.T.Sort.arrayParts()
+		return SVal{T: Select(v.T, coerce(k.T, ks)), Typ: tBool}
 	case "alloc":
 		argn(0)
 		return SVal{T: e.cur.alloc, Typ: tInt}
